@@ -268,3 +268,26 @@ func TestConjureLibConfigResolveEmptyHost(t *testing.T) {
 		}
 	}
 }
+
+func TestConjureLibConfigResolveZonedIPv4(t *testing.T) {
+	// An IPv4-mapped literal with a zone would be returned as "a.b.c.d%zone:port",
+	// which is not an IP:port literal: net.Dial resolves it as a host name.
+	for _, conf := range []*RegConfig{
+		{},
+		{CovertBlocklistSubnets: []string{"127.0.0.0/8", "::1/128"}},
+		{CovertAllowlistSubnets: []string{"192.0.2.0/24"}},
+	} {
+		conf.ParseBlocklists()
+		for _, input := range []string{"[::ffff:192.0.2.1%eth0]:80", "[::ffff:c000:201%1]:443", "[0:0:0:0:0:ffff:192.0.2.1%lo]:80"} {
+			output, _ := conf.ParseOrResolveBlocklisted(input)
+			require.Equal(t, "", output, "%q should be rejected", input)
+		}
+		// the same addresses without a zone, and a zoned IPv6 address, are unaffected
+		if !conf.enableCovertAllowlist {
+			output, _ := conf.ParseOrResolveBlocklisted("[fe80::1%eth0]:80")
+			require.Equal(t, "[fe80::1%eth0]:80", output)
+		}
+		output, _ := conf.ParseOrResolveBlocklisted("[::ffff:192.0.2.1]:80")
+		require.Equal(t, "192.0.2.1:80", output)
+	}
+}
